@@ -306,6 +306,36 @@ def minimise_and_report(pid, built, scratch, failure, race, seed):
     return path
 
 
+def dies(built, pid, plan, scratch, race, seed, marker, attempts=2):
+    """True if a replay worker dies on this plan with `marker` in its output."""
+    for a in range(attempts):
+        w, out = one_shot(built["bin"], dict(prop=pid, mode="replay", tier="quick", seed=seed, plan=plan), scratch, "fshrink", 900, race=race)
+        if out is None or w["rc"] != 0:
+            tail = open(w["log"]).read()[-6000:]
+            if marker in tail:
+                return True, tail[tail.index(marker):] if marker != "goroutine " else tail
+    return False, ""
+
+
+def shrink_fatal(built, pid, plan, scratch, race, seed, marker, budget_s=420):
+    """Orchestrator-level reducer for violations that kill the worker process: every
+    candidate is tried in a fresh process; kept if the process dies the same way."""
+    t0 = time.time()
+    progress = True
+    detail = None
+    while progress and time.time() - t0 < budget_s:
+        progress = False
+        w, out = one_shot(built["bin"], dict(prop=pid, mode="cands", tier="quick", seed=seed, plan=plan), scratch, "cands", 300, race=race)
+        for cand in (out or {}).get("cands") or []:
+            if time.time() - t0 > budget_s:
+                break
+            ok, tail = dies(built, pid, cand, scratch, race, seed, marker)
+            if ok:
+                plan, detail, progress = cand, tail, True
+                break
+    return plan, detail
+
+
 def check(pid, tier, seed):
     t0 = time.time()
     conf = PROPS[pid]
@@ -344,7 +374,7 @@ def check(pid, tier, seed):
                         agg["infra"].append("worker %s died before its first run (rc=%s):\n%s" % (w["tag"], w["rc"], tail))
                         continue
                     job = dict(w["job"], only_run=cur, budget_s=0)
-                    raced = "DATA RACE" in tail
+                    raced = "DATA RACE" in tail or "VERIF-BLOCKED-FOREVER" in tail
                     reproduced, tail2, out2 = False, "", None
                     for attempt in range(3 if raced else 1):
                         w2, out2 = one_shot(built["bin"], job, scratch, w["tag"] + "-rerun", 1200, race=race)
@@ -358,9 +388,11 @@ def check(pid, tier, seed):
                         # whether it fires again depends on its bounded shadow history and on
                         # sync.Pool hand-overs inside math/big) is a violation
                         rep = tail2 if reproduced else tail
-                        cls = "data-race" if "DATA RACE" in rep else "process-death"
+                        cls = "data-race" if "DATA RACE" in rep else ("blocked-forever" if "VERIF-BLOCKED-FOREVER" in rep else "process-death")
+                        if cls == "blocked-forever":
+                            rep = rep[rep.index("VERIF-BLOCKED-FOREVER"):]
                         gen = one_shot_gen(built, pid, tier, seed, cur, st.get("variant", ""), scratch, race)
-                        agg["violations"].append(dict(run=cur, **{"class": cls}, detail=rep[-3500:], plan=gen, fatal=True, replay_unstable=not reproduced))
+                        agg["violations"].append(dict(run=cur, **{"class": cls}, detail=(rep[:3500] if cls == "blocked-forever" else rep[-3500:]), plan=gen, fatal=True, replay_unstable=not reproduced))
                     else:
                         agg["infra"].append("worker %s died (rc=%s) on run %s but the run alone passes:\n%s" % (w["tag"], w["rc"], cur, tail[-2000:]))
                         merge(agg, stage, out2)
@@ -380,11 +412,15 @@ def check(pid, tier, seed):
             rc = 2
         for f in agg["violations"][:1]:
             if f.get("fatal"):
+                marker = {"data-race": "DATA RACE", "blocked-forever": "VERIF-BLOCKED-FOREVER"}.get(f["class"], "goroutine ")
+                small, det = shrink_fatal(built, pid, f["plan"], scratch, race, seed, marker)
+                if det:
+                    f = dict(f, plan=small, detail=(det[:3500] if f["class"] == "blocked-forever" else det[-3500:]), minimised=True)
                 rdir = os.path.join(REPLAY_DIR, pid)
                 os.makedirs(rdir, exist_ok=True)
                 h = hashlib.sha256(json.dumps(f["plan"], sort_keys=True).encode()).hexdigest()[:12]
                 path = os.path.join(rdir, "%s-%s.json" % (f["class"], h))
-                json.dump(dict(property=pid, violation_class=f["class"], detail=f["detail"], seed=seed, run=f["run"], minimised=False, replay_unstable=f.get("replay_unstable", False), race_build=race, plan=f["plan"],
+                json.dump(dict(property=pid, violation_class=f["class"], detail=f["detail"], seed=seed, run=f["run"], minimised=f.get("minimised", False), replay_unstable=f.get("replay_unstable", False), race_build=race, plan=f["plan"],
                                note="race reports are replayed up to 5 times: the schedule is deterministic, the detector's bounded shadow history and pool hand-overs inside math/big are not"), open(path, "w"), indent=1)
                 log(f["detail"])
                 log("VIOLATION property=%s replay=%s" % (pid, path))
@@ -494,7 +530,7 @@ def replay_cmd(pid, path):
         if out is None or w["rc"] != 0:
             tail = open(w["log"]).read()[-5000:]
             log(tail)
-            if "DATA RACE" in tail or body.get("violation_class") in ("data-race", "process-death"):
+            if "DATA RACE" in tail or "VERIF-BLOCKED-FOREVER" in tail or body.get("violation_class") in ("data-race", "process-death", "blocked-forever"):
                 log("VIOLATION property=%s replay=%s" % (pid, path))
                 return 1
             raise Infra("replay worker died")
